@@ -204,14 +204,21 @@ class Cache(object):
         return orig_seq
 
     def _dump_flow_and_yield(self, flow):
-        # fill cache and yield values
-        with open(self._filename, "wb") as f:
+        # fill cache and yield values.
+        # The flow is dumped into a temporary file, which is moved
+        # to the cache file name only after the flow is exhausted:
+        # if this run is interrupted (the consumer stops or an element
+        # raises), no truncated cache is left to be served as a complete one.
+        tmp_filename = self._filename + ".tmp"
+        with open(tmp_filename, "wb") as f:
             dump = lambda val: self._dump(val, f, self.protocol)
             for val in flow:
                 # if there were an error in a next element,
                 # our value will be saved first (before yielding)
                 dump(val)
                 yield val
+        # os.replace is missing in Python 2
+        getattr(os, "replace", os.rename)(tmp_filename, self._filename)
 
 
     def _load_flow(self):
